@@ -6,7 +6,7 @@ import re
 import networkx as nx
 
 from ..cfg import FuncCFG, walk_no_nested, ENTRY, EXIT
-from ..model import AnalysisError, ClassInfo
+from ..model import AnalysisError, ClassInfo, qual
 from ..norm import Normalizer
 from ..runner import rule
 from .. import controllers as ct
@@ -30,7 +30,7 @@ def _record_calls(fn):
 def r1(ctx, R):
     repo = ctx.repo
     base, subs = _hooks(repo)
-    time_ok = re.compile(r'^(L\.time|L\.time \+ L\.dt|t|-1|self\.t_last_solution)$')
+    time_ok = re.compile(r'^(L\.time|L\.time \+ L\.dt|t|-\d+|self\.t_last_solution)$')
     for ci in subs:
         for name, fn in ci.methods.items():
             calls = _record_calls(fn)
@@ -48,7 +48,8 @@ def r1(ctx, R):
                 if missing or 'value' not in kw and not c.args:
                     R.bad(cons, w, f'keys {KEYS} + value', f'missing {missing}')
                     continue
-                ok = time_ok.match(kw['time']) is not None and kw['process'] in ('step.status.slot', '-1') and kw['iter'] in ('step.status.iter', '-1', 'iter') and kw['level'] in ('L.level_index', '-1') and kw['sweep'] in ('L.status.sweep', '-1')
+                na = lambda v: re.fullmatch(r'-\d+', v) is not None  # "not applicable" sentinel: a negative literal
+                ok = time_ok.match(kw['time']) is not None and (kw['process'] == 'step.status.slot' or na(kw['process'])) and (kw['iter'] in ('step.status.iter', 'iter') or na(kw['iter'])) and (kw['level'] == 'L.level_index' or na(kw['level'])) and (kw['sweep'] == 'L.status.sweep' or na(kw['sweep']))
                 if ok and kw['time'] == 't':
                     # the only sanctioned loop variable: for t in [L.time, L.time + L.dt]
                     loops = [l for l in walk_no_nested(fn) if isinstance(l, ast.For) and ast.unparse(l.target) == 't']
@@ -130,6 +131,11 @@ def r3(ctx, R):
         loops = [l for l in walk_no_nested(fn) if isinstance(l, ast.For) and marks[0] in list(ast.walk(l))]
         ok = kw.get('value') == "step.status.get('restart')" and kw.get('time') == 't' and len(loops) == 1 and ast.unparse(loops[0].iter) == '[L.time, L.time + L.dt]'
     R.check(ok, "DefaultHooks.post_step :: '_recomputed' = restart flag at L.time and L.time + L.dt", w, "for t in [L.time, L.time + L.dt]: add_to_stats(type='_recomputed', value=step.status.get('restart'), time=t)", [ast.unparse(c)[:120] for c in marks])
+    if len(marks) == 1:
+        def _lit(v):
+            return isinstance(v, ast.Constant) or isinstance(v, ast.UnaryOp) and isinstance(v.operand, ast.Constant)
+        varying = sorted(k.arg for k in marks[0].keywords if k.arg not in ('time', 'value') and not _lit(k.value))
+        R.check(not varying, "DefaultHooks.post_step :: the marker key depends on the time only (all other key fields are constants), so a later attempt at the same time overwrites the marker of an abandoned one - whichever slot computed it", w, 'process, level, iter, sweep, process_sweeper are literals', varying)
     fs = repo.func(SH, 'filter_stats')
     w = f'{SH}:filter_stats'
     R.fn(w)
@@ -345,3 +351,37 @@ def r10(ctx, R):
     cl = sorted(c.describe() for c in N.contribs if re.fullmatch(r'self\.MS\[.+\]\.status\.(first|last)', c.target) and c.rhs == 'False')
     ok = len(cl) == 2 and all(re.fullmatch(r'self\.MS\[i1 - 1\]\.status\.(first|last) = \+False for i1=1\.\.len\(self\.MS\) if (len\(active_slots\) > 0 and )?i1 - 1 not in active_slots( and len\(active_slots\) > 0)?', d) for d in cl) and {d.split('.status.')[1].split(' ')[0] for d in cl} == {'first', 'last'}
     R.check(ok, 'controller_nonMPI.restart_block :: when a block is formed, every step outside it gets first = last = False', w, 'for q in all steps: if active_slots and q not in active_slots: first = last = False', cl)
+
+
+@rule('C14', 'C14.R11', 'a hook that overrides the restart generation of its records (private key of the base class) does so after the base-class callback refreshed it and before it records: base callback -> override -> add_to_stats; the overriding value is the one remembered from the step that was accepted', floor=3)
+def r11(ctx, R):
+    repo = ctx.repo
+    n = 0
+    for m, ci, fn in repo.all_functions():
+        if ci is None or not repo.is_library(ci) or (m.relpath == HK and ci.name == 'Hooks'):
+            continue
+        cfg = FuncCFG(fn)
+        ov = [(k, s) for k, s in cfg.stmt_of.items() if isinstance(s, ast.Assign) and any(ast.unparse(t) in ('self._Hooks__num_restarts',) for t in s.targets)]
+        if not ov:
+            continue
+        n += 1
+        w = qual(m, ci, fn)
+        R.fn(w)
+        sup = [k for k in cfg.stmt_of for c in cfg.calls_at(k) if ast.unparse(c.func) == f'super().{fn.name}']
+        rec = [k for k in cfg.stmt_of for c in cfg.calls_at(k) if isinstance(c.func, ast.Attribute) and c.func.attr in RECORD and ast.unparse(c.func.value) == 'self']
+        ok = len(ov) == 1 and not cfg.guards.get(id(ov[0][1]))
+        R.check(ok, f'{ci.name}.{fn.name} :: one unconditional override of the restart generation', w, 'self._Hooks__num_restarts = <remembered value>', [ast.unparse(s) for _, s in ov])
+        if not ok:
+            continue
+        o = ov[0][0]
+        late = [k for k in sup if cfg.reachable(o, k)]
+        R.check(bool(sup) and not late, f'{ci.name}.{fn.name} :: the base-class callback (which refreshes the generation from the step status) runs before the override, never after it', w, f'super().{fn.name}(..) precedes the override', f'{len(sup)} base call(s), {len(late)} after the override')
+        early = [k for k in rec if not cfg.dominates(o, k)]
+        R.check(bool(rec) and not early, f'{ci.name}.{fn.name} :: the override dominates every record written by the callback', w, 'override -> add_to_stats', f'{len(rec)} record call(s), {len(early)} not dominated')
+        # the remembered value: written in another callback of the same class from the step status
+        val = ast.unparse(ov[0][1].value)
+        src = [ast.unparse(s) for f2 in ci.methods.values() if f2.name not in ('__init__', fn.name) for s in ast.walk(f2) if isinstance(s, ast.Assign) and ast.unparse(s.targets[0]) == val]
+        ok = len(src) >= 1 and all('restarts_in_a_row' in x and 'step.status' in x for x in src)
+        R.check(ok, f'{ci.name} :: {val} is remembered from the status of the step the solution belongs to', f'{m.relpath}:{ci.name}', f"{val} = step.status.get('restarts_in_a_row', 0) in post_step", src)
+    if not n:
+        raise AnalysisError('C14.R11: the confirmed override site (LogGlobalErrorPostRun.post_run) not found')
